@@ -174,7 +174,8 @@ def static_facts(repo):
     out = subprocess.run(['grep', '-rnE', r'\bfputc\s*\(|\bfwrite\s*\(|fputs\s*\(', os.path.join(repo, 'src'), '--include=*.cpp'],
                          stdout=subprocess.PIPE, text=True).stdout
     bad = [l for l in out.splitlines() if not re.search(r'/(unicode|backup|logger|universalindentgui|uncrustify|unc_tools|md5|option|args|keywords|language_names|log_rules|detect|uncrustify_emscripten|output)\.cpp:', l)]
-    fputc_sites = [l for l in out.splitlines() if 'fputc' in l and 'universalindentgui' not in l and '/uncrustify.cpp:' not in l]
+    # (save_option_file() in option.cpp writes the *configuration* file to its own stream `pfile`: not formatter output)
+    fputc_sites = [l for l in out.splitlines() if 'fputc' in l and 'universalindentgui' not in l and '/uncrustify.cpp:' not in l and not re.search(r'/option\.cpp:\d+:.*fputc\([^,]+, pfile\)', l)]
     ok = not bad and len(fputc_sites) == 1 and '/unicode.cpp:' in fputc_sites[0]
     return [('fputc(…, cpd.fout) in unicode.cpp write_byte() is the only byte writer of the formatter', ok, '; '.join(fputc_sites + bad)[:400])]
 
@@ -186,7 +187,7 @@ def proofs(tier, workroot):
     sp = importlib.util.spec_from_file_location('c04proofs', os.path.join(here, '..', 'C04', 'proofs.py'))
     c04 = importlib.util.module_from_spec(sp)
     sp.loader.exec_module(c04)
-    return list(PROOFS) + c04.proofs(tier, workroot)
+    return list(PROOFS) + [q for q in c04.proofs(tier, workroot) if q.name == 'uncrustify_file']      # only the driver proof (C04's own kernels stay with C04)
 
 sys.path.insert(0, os.path.join(os.path.dirname(os.path.abspath(__file__)), '..', '..', 'tools'))
 import replay_lib  # noqa: E402
